@@ -4683,9 +4683,8 @@ where
           }
           _ => Some(format!("expected {}, got {}", u, s)),
         },
-        token::Value::BYTE(token::ByteValue::UTF8(b)) if s.as_bytes() == b.as_ref() => None,
-        token::Value::BYTE(token::ByteValue::B16(b)) if s.as_bytes() == b.as_ref() => None,
-        token::Value::BYTE(token::ByteValue::B64(b)) if s.as_bytes() == b.as_ref() => None,
+        // (a byte-string literal never matches a text string, even one with
+        // the same bytes: they are different major types)
         _ => Some(format!("expected {}, got \"{}\"", value, s)),
       },
       Value::Bytes(b) => match value {
